@@ -1,4 +1,5 @@
 """C18: strongly connected components are exactly the mutual-reachability classes; partition; largest is maximal."""
+import glob
 import os
 from lib import vf
 
@@ -7,7 +8,18 @@ RULE = ("real Graphs (adj/rev filled as edge_loader.rs does, every 25th random c
         "deterministic chains / cycles / chains of cycles / stars of degree >5 / complete graphs / parallel edges / "
         "isolated vertices, then random graphs (sparse, dense, chain with back edges, planted components, hubs, "
         "nested cycles, multigraphs; up to 40 vertices quick, 80 thorough (deterministic chains/cycles up to 200), random relabelling and edge order). "
-        "I = canonical components + largest of all_strongly_connected_componenets / largest_strongly_connected_component, "
+        "Family deep (14 cases quick, 52 thorough): one-way rings and chains in both numberings, two-way chains, rings joined by "
+        "one-way links, lollipops, a roundabout with a long loop road, two-way rings with one-way stretches, 4500..20000 vertices "
+        "(sizes by seed; ring/chain 6000 and loop road 5003 always), and chain / ring / two-way chain of 9000 and 40000 (thorough: "
+        "also 300000) vertices, structured numbering. Every deep case runs the implementation on an ORDINARY 2 MiB thread stack in "
+        "a child process; a child that dies gives I = ABORT(stack overflow or crash) against S = an accepted Ok result: these "
+        "cases are what guards the fixed defect D-SCC-STACK (recursive searches aborted the process from 8713 vertices on a 2 MiB "
+        "thread, 34927 on the main thread). For this family the nat model and check_scc cannot be evaluated (unary numerals): "
+        "I = number of components + length of largest, M only echoes that summary from the output embedded in the term (NO model "
+        "evaluation), S = the verified near-linear checker SccDeep.deep_check/check_largest (c18_deep_check_sound) on the "
+        "implementation's output, run-length encoded by the harness and listed in a certificate order (topological order of the "
+        "condensation, computed by the harness, only checked in Coq). "
+        "Other families: I = canonical components + largest of all_strongly_connected_componenets / largest_strongly_connected_component, "
         "M = the same from the Coq model, S = verified checker check_scc/check_largest on the implementation's raw output; "
         "non-trivial = at least one component of size >=2 and at least 2 components; distinct by (n, edge list)")
 
@@ -25,17 +37,29 @@ def run(chk):
         "HashSet<VertexId> used only through contains/insert/clear, modelled as a list",
         "the S lines do not depend on the model: check_scc/check_largest (proved to accept exactly the correct answers, "
         "c18_check_scc_decides) are evaluated in Coq on the implementation's raw output",
+        "deep family: run-length encoding of the implementation's output and of the edge list by the harness, decoding in "
+        "coq/Model/SccDeepRun.v",
         "Rust harness harness/src/bin/c18.rs and this driver"]
     chk.assumptions = ["the graph is a digraph proper: every edge endpoint is an existing vertex (Scc.wf); "
                        "Graph::from_files refuses an edge list with a dangling endpoint (family dangling_endpoint_from_files: "
                        "I = M = S = LoadErr, decided from wfb); a Graph assembled directly with a dangling endpoint is "
                        "outside the property (family dangling_endpoint, compared with the model only)",
-                       "recursion depth of depth_first_search (<= number of vertices) fits the thread stack"]
+                       "none on the stack any more: since /repo 5cf0f14 the searches keep explicit frames; the deep family runs them on an "
+                       "ordinary 2 MiB thread stack up to 40000 (thorough 300000) vertices and reports an aborted child process "
+                       "(fixed defect D-SCC-STACK: the recursive version aborted from 8713 vertices on such a thread)"]
     chk.proofs(extra_targets=["Model/SccRun.vo"])
     binp = vf.build_harness("c18")
     thorough = chk.tier != "quick"
     n = 4000 if thorough else 350
     extra = ["--exh4"] if thorough else []
+    if not chk.replay:
+        # witnesses of the seeded change C18-9 and of the mutations tried, replayed first
+        for f in sorted(glob.glob(os.path.join(vf.ROOT, "corpus", "C18", "*.json"))):
+            name = os.path.basename(f)[:-5]
+            rc = vf.run_stream(binp, "scc", 1, chk.seed, os.path.join(chk.outdir, "corpus_" + name), shards=1, replay=f)
+            rc.name = "scc"
+            chk.coverage["streams"].setdefault("corpus", {"cases": 0, "rule": "corpus/C18/*.json replayed (full payloads)"})["cases"] += 1
+            vf.compare(chk, rc, classify=classify, binpath=binp, stream_label="corpus:" + name)
     r = vf.run_stream(binp, "scc", n, chk.seed, os.path.join(chk.outdir, "scc"), extra=extra, replay=chk.replay)
     chk.add_stream(r, RULE)
     ncorr, nprop = vf.compare(chk, r, classify=classify, binpath=binp, extra=extra)
